@@ -47,42 +47,58 @@ def parse(path, n):
                 break
     return cases
 
+def coq_eval(args):
+    """one case, one coqc: returns the per-tag verdict counts, or None when vm_compute does not finish in the time limit
+    (Coq's binary Z is ~1000x slower than GMP on the 200-bit determinants of near-ulp inputs)"""
+    k, c, head, wd, limit = args
+    steps = []
+    for s in c["steps"]:
+        obs = "None" if s["obs"] is None else "(Some %s)" % zl(s["obs"])
+        aux = "None" if s["aux"] is None else "(Some %s)" % zl(s["aux"])
+        steps.append("mkstep (%d)%%Z %s %s %s %s" % (s["op"], zl(s["args"]), zl(s["res"]), obs, aux))
+    v = list(head)
+    v.append("Definition case0 : list step := [%s]." % ";\n  ".join(steps))
+    v.append("Eval vm_compute in (summ (run_case (mkcfg %s %s (%d)%%Z) case0))." % (str(c["cdt"]).lower(), str(c["f32"]).lower(), c["hint"]))
+    vf = os.path.join(wd, "xval_case%d.v" % k)
+    open(vf, "w").write("\n".join(v) + "\n")
+    try:
+        p = subprocess.run(["coqc", "-noglob", "-Q", os.path.join(ROOT, "coq", "theories"), "SpadeV", vf], capture_output=True, text=True, timeout=limit)
+    except subprocess.TimeoutExpired:
+        return None
+    if p.returncode != 0:
+        return "coqc: " + p.stderr[-300:].replace("\n", " ")
+    trip = re.findall(r"\(\s*(\d+),\s*(\d+),\s*(true|false)\s*\)", p.stdout)
+    d = {}
+    for (_, t, ok) in trip:
+        nm = codes.TAGS[int(t)][0]
+        a = d.setdefault(nm, [0, 0])
+        a[0 if ok == "true" else 1] += 1
+    return d
+
 def main():
     path, n = sys.argv[1], int(sys.argv[2])
-    cases = [c for c in parse(path, n) if sum(len(s["obs"] or []) for s in c["steps"]) < 6000][:n]
-    if not cases:
+    limit = int(os.environ.get("VERIF_XVAL_LIMIT", "60"))
+    # candidates: up to 4n of the leading cases with small dumps; the first n that finish in time are compared
+    cand = [c for c in parse(path, 6 * n) if sum(len(s["obs"] or []) for s in c["steps"]) < 3000][:2 * n]
+    if not cand:
         print("XVAL ok 0 0")
         return 0
-    v = ["Set Printing Depth 1000000.", "Set Printing Width 400.", "From Coq Require Import ZArith List Bool.", "From SpadeV Require Import Check.Codes Check.Run.", "Import ListNotations.",
-         "Definition tagn (t : tag) : nat := match t with " + " | ".join("T_%s => %d" % (t, i) for i, (t, _) in enumerate(codes.TAGS)) + " end.",
-         "Definition summ (l : list verdict) : list (nat * nat * bool) := map (fun v => (fst (fst v), tagn (snd (fst v)), snd v)) l."]
-    for k, c in enumerate(cases):
-        steps = []
-        for s in c["steps"]:
-            obs = "None" if s["obs"] is None else "(Some %s)" % zl(s["obs"])
-            aux = "None" if s["aux"] is None else "(Some %s)" % zl(s["aux"])
-            steps.append("mkstep (%d)%%Z %s %s %s %s" % (s["op"], zl(s["args"]), zl(s["res"]), obs, aux))
-        v.append("Definition case%d : list step := [%s]." % (k, ";\n  ".join(steps)))
-        v.append("Eval vm_compute in (summ (run_case (mkcfg %s %s (%d)%%Z) case%d))." % (str(c["cdt"]).lower(), str(c["f32"]).lower(), c["hint"], k))
+    head = ["Set Printing Depth 1000000.", "Set Printing Width 400.", "From Coq Require Import ZArith List Bool.", "From SpadeV Require Import Check.Codes Check.Run.", "Import ListNotations.",
+            "Definition tagn (t : tag) : nat := match t with " + " | ".join("T_%s => %d" % (t, i) for i, (t, _) in enumerate(codes.TAGS)) + " end.",
+            "Definition summ (l : list verdict) : list (nat * nat * bool) := map (fun v => (fst (fst v), tagn (snd (fst v)), snd v)) l."]
     wd = os.path.join(ROOT, ".cache", "xval")
     os.makedirs(wd, exist_ok=True)
-    vf = os.path.join(wd, "xval_cases.v")
-    open(vf, "w").write("\n".join(v) + "\n")
-    p = subprocess.run(["coqc", "-noglob", "-Q", os.path.join(ROOT, "coq", "theories"), "SpadeV", vf], capture_output=True, text=True, timeout=600)
-    if p.returncode != 0:
-        print("XVAL ERROR coqc: " + p.stderr[-300:].replace("\n", " "))
-        return 1
-    # coq prints "= [ (k, t, b); ...] : list ..." per Eval; count per case
-    blocks = re.split(r"\n\s*=\s", "\n" + p.stdout)[1:]
-    coq_counts = []
-    for b in blocks:
-        trip = re.findall(r"\(\s*(\d+),\s*(\d+),\s*(true|false)\s*\)", b)
-        d = {}
-        for (_, t, ok) in trip:
-            nm = codes.TAGS[int(t)][0]
-            a = d.setdefault(nm, [0, 0])
-            a[0 if ok == "true" else 1] += 1
-        coq_counts.append(d)
+    from concurrent.futures import ThreadPoolExecutor
+    with ThreadPoolExecutor(max_workers=16) as ex:
+        res = list(ex.map(coq_eval, [(k, c, head, wd, limit) for k, c in enumerate(cand)]))
+    for r in res:
+        if isinstance(r, str):
+            print("XVAL ERROR " + r)
+            return 1
+    skipped = sum(1 for r in res if r is None)
+    pairs = [(c, r) for c, r in zip(cand, res) if r is not None][:n]
+    cases = [c for c, _ in pairs]
+    coq_counts = [r for _, r in pairs]
     # the extracted checker on the same cases
     sub = os.path.join(wd, "sub.out")
     ids = set(c["id"] for c in cases)
@@ -109,7 +125,7 @@ def main():
             print("XVAL MISMATCH case %s: coq %s ocaml %s" % (c["id"], cc, ml.get(c["id"])))
             return 1
         total += sum(a + b for a, b in cc.values())
-    print("XVAL ok %d %d" % (len(cases), total))
+    print("XVAL ok %d %d%s" % (len(cases), total, (" (%d further cases skipped: vm_compute over %ds)" % (skipped, limit)) if skipped else ""))
     return 0
 
 if __name__ == "__main__":
